@@ -33,27 +33,44 @@ from pycoin.blockchain.BlockChain import BlockChain, _update_q
 
 MANIFEST = {
     "text": "Lean theorems over an executable model of ChainFinder (load_nodes/meld_new_hashes with the set.pop() order a parameter, "
-            "maximum_path, find_ancestral_path) and BlockChain (add_headers, lock_to_index, lookups), by induction over arbitrary histories and, "
-            "inside each call, over the melding loop with an invariant relative to the pending set: for every forest, batching, pop order and "
-            "interleaving of lock_to_index the finder ends sound and complete (C15_chainfinder_inv); replaying all returned ops from the empty list "
-            "reproduces the reported chain; length/hash_for_index/tuple_for_index/index_for_hash/last_block_hash agree with one duplicate-free list; "
-            "the reported unlocked chain is a heaviest chain of registered headers above the current anchor, also after lock_to_index; well-formed "
-            "histories (acyclic parent relation, anchor outside the forest, locks within the chain) never raise and every walk ends within its fuel "
-            "(C15_never_raises). The pre-repair meld_new_hashes is refuted on the three-header witness. "
+            "maximum_path, find_ancestral_path) and BlockChain (add_headers, lock_to_index, preload_locked_blocks, every lookup incl. negative indices, "
+            "locked_length/unlocked_length, is_hash_known, the did_lock_to_index_f arguments, the queue helper _update_q), by induction over arbitrary "
+            "histories and, inside each call, over the melding loop with an invariant relative to the pending set. For every forest, batching, pop order "
+            "and interleaving of lock_to_index: the finder ends sound and complete (C15_chainfinder_inv); parent_lookup and weight_lookup record exactly "
+            "the delivered headers that are not locked, _locked_chain is the concatenation of the items handed to did_lock_to_index_f and a chain of "
+            "delivered headers from the first anchor (C15_dicts_record_delivered, _exact); hence, with Delivered(history) = all headers of all batches and "
+            "no hypothesis on what the dicts hold, the reported chain is a chain of Spec.Chain from the first anchor and its unlocked part a "
+            "maximum-total-weight chain from the current anchor among ALL delivered headers (C15_heaviest_over_spec; C15_heaviest_extending_locked: heaviest "
+            "among the chains from the first anchor that extend the locked prefix; C15_heaviest_no_lock: heaviest outright when nothing was locked); "
+            "replaying all returned ops from the empty list reproduces the reported chain (C15_replay_ops) and so does the queue a consumer keeps through "
+            "_update_q (C15_update_q); length, tuple_for_index (hash, parent, weight; locked and unlocked part), hash_for_index (also -1..-length), "
+            "index_for_hash (None off the chain), is_hash_known, last_block_hash, locked_length, unlocked_length agree with that one chain "
+            "(C15_index_maps_agree, C15_lookups_over_spec); lock_to_index emits no ops and calls did_lock_to_index_f with the newly locked items and the old "
+            "locked length exactly when something new is locked (C15_lock_callback); the same from an object with a preloaded locked prefix "
+            "(C15_preloaded_history); well-formed histories never raise (C15_never_raises). The pre-repair meld_new_hashes is refuted on the three-header witness. "
             "Model tied to the code by differential correspondence on whole histories (all forests on <=3 headers x weights x batchings x pop orders, "
-            "samples of 4..6, random histories with forks, orphans, duplicates, zero weights and locks, two objects fed interleaved) and a reference "
-            "oracle on the implementation; the finder invariant is also evaluated on the real objects after every step (op c15inv).",
+            "samples of 4..6, random histories with forks, orphans, duplicates, zero weights, locks and preloaded prefixes, two objects fed interleaved, "
+            "_update_q on arbitrary queues) and a reference oracle on the implementation; the finder invariant is also evaluated on the real objects after "
+            "every step (op c15inv).",
     "note": "set.pop()/iteration order is pinned by a set subclass bound to the name `set` in the ChainFinder module namespace (no source change). "
-            "Three defects repaired (fix: commits): lost orphan subtrees in meld_new_hashes, chain switch at lock_to_index on ties, "
-            "locked duplicate wiping the unlocked chain. Still partial: the statement against Spec.Chain assumes that the dicts record the "
-            "delivered headers (C15_heaviest_over_spec_partial).",
+            "Three defects repaired earlier (fix: commits): lost orphan subtrees in meld_new_hashes, chain switch at lock_to_index on ties, "
+            "locked duplicate wiping the unlocked chain. C15_heaviest_over_spec_partial is kept; its hypothesis is what C15_dicts_record_delivered proves. "
+            "What the code keeps after lock_to_index: every registered header except the newly locked ones, i.e. also side branches hanging below the lock "
+            "point; they can no longer reach the current anchor (their top is a locked hash or the first anchor, which have no entry), the maximality "
+            "statement is over all delivered headers anyway. weight_lookup/unlocked_block_storage are never pruned. Hypotheses that remain: no delivered "
+            "header carries the first anchor's hash; a hash names one header (Spec.Chain.Consistent) for the statements against the specification. "
+            "Observed, outside the property: tuple_for_index(i) for i < -length() hands the still negative index to _locked_chain[i], which wraps around "
+            "instead of raising (model and code agree; not judged). Two objects created without a storage argument share the default dict "
+            "unlocked_block_storage; with real hashes (one header per hash) the ops are unaffected.",
     "technique": "Lean 4 proof (induction over histories and over the melding loop of an executable model) + differential correspondence model vs implementation + reference oracle",
 }
-RULE = ("one op = one history (forest, delivery order and batching, lock_to_index calls, scripted pop order); distinct = distinct op line; "
-        "trivial = fewer than two add_headers steps or a forest that is a single chain delivered in order")
+RULE = ("one op = one history (forest, delivery order and batching, lock_to_index calls, optional preloaded prefix, scripted pop order) or one "
+        "_update_q call; distinct = distinct op line; trivial = fewer than two add_headers steps or a forest that is a single chain delivered in order")
 ASSUMPTIONS = ["hashes are distinct numbers standing in for header hashes; the headers form a forest (no cycles) and no header has the anchor as its own hash",
+               "a hash names one header: a re-delivered header equals the stored one (the harness compares header objects by hash)",
                "CPython set iteration/pop order is unspecified: the harness pins it (insertion order or its reverse; scripted pop) and the theorems hold for every order",
-               "after lock_to_index the 'anchor' is the last locked block: maximality is among chains extending the locked prefix"]
+               "after lock_to_index the 'anchor' is the last locked block: maximality is among chains extending the locked prefix",
+               "preload_locked_blocks is covered as the first call on a fresh object with a chain of distinct headers from the anchor"]
 TRUSTED = ["harness/props/c15.py ScriptedSet: a `set` subclass with a scripted pop order, bound to the name `set` in pycoin.blockchain.ChainFinder's module namespace"]
 
 
